@@ -419,6 +419,9 @@ func (s *SVCBAlpn) unpack(b []byte) error {
 		if i+length > len(b) {
 			return errors.New("bad svcbalpn: alpn array overflowing")
 		}
+		if length == 0 {
+			return errors.New("bad svcbalpn: empty alpn-id")
+		}
 		alpn = append(alpn, string(b[i:i+length]))
 		i += length
 	}
